@@ -233,6 +233,7 @@ struct Conc : Prop {
 	void attach(Engine &e) override {
 		deleg = sub && e.plan.has("delegate");
 		sim::hooks().on_fn_enter = nullptr;
+		sim::lockset_arm(false); sim::lockset_reset_counters();
 		if (deleg) { deleg_runs++; sub->attach(e); return; }
 		g_e = &e; g_armed = false; g_contract_checks = 0;
 		world = cfg::from_json(e.plan["world"]);
@@ -242,8 +243,8 @@ struct Conc : Prop {
 		sim::hooks().on_fn_enter = fn_hook;
 		e.bus.on_delivered = [this](bus::UpFrame &f) { for (auto &m : f.msgs) if (m.type == MSG_SYS_PONG && m.data.size() == 3 && m.data[2] == 0x77) pongs_sent.insert(m.data); };
 	}
-	void on_session_start(Engine &e, int s, int ret) override { if (deleg) { sub->on_session_start(e, s, ret); return; } g_armed = (ret == 0) && !is_c11; }
-	void before_stop(Engine &e, int s) override { if (deleg) { sub->before_stop(e, s); return; } g_armed = false; }
+	void on_session_start(Engine &e, int s, int ret) override { if (!is_c11) sim::lockset_arm(ret == 0); if (deleg) { sub->on_session_start(e, s, ret); return; } g_armed = (ret == 0) && !is_c11; }
+	void before_stop(Engine &e, int s) override { sim::lockset_arm(false); if (deleg) { sub->before_stop(e, s); return; } g_armed = false; }
 	void on_session_stop(Engine &e, int s) override { if (deleg) sub->on_session_stop(e, s); }
 	void at_end(Engine &e) override { if (deleg) sub->at_end(e); }
 
@@ -318,6 +319,7 @@ struct Conc : Prop {
 		J p = J::obj(); p.set("contract_checks", (long long) g_contract_checks); p.set("torn_read_checks", (long long) torn_checks);
 		p.set("unique_messages_read", (long long) pongs_read.size()); p.set("runs_with_overlapping_calls", overlap ? 1 : 0);
 		if (e.plan.has("focus")) p.set("focus_runs_one_entity_hammered", 1);
+		p.set("glib_container_lockset_checks", (long long) sim::lockset_checks()); p.set("glib_containers_shared_between_tasks", (long long) sim::lockset_shared_objects());
 		f.set("probes", p);
 	}
 };
